@@ -16,10 +16,10 @@ func init() {
 		ID: "C22",
 		Explanation: "Decides structural necessary conditions of C22: (CACHE-KEY) every evaluation of module source is dominated by the miss edge of a lookup in the interpreter's module table with the very key under which the module is then installed (so a second import finds it and no second evaluation happens); (INSTALL-PAIR) the namespace is installed before its code runs (circular imports terminate), the namespace returned to the importer is the installed one (all importers share it), and on every path where execution fails the entry is deleted again with the same key (a failed module is not remembered); (RELATIVE-BASE) a relative spec is resolved against the directory of the importing file when the importing code comes from a file and against the working directory otherwise, and the working directory is read when the import runs: no call path from the compiler reaches os.Getwd. Path resolution details and plugin modules are not decided.",
 		NotCovered:  "file-system path normalisation, plugin (.so) modules, concurrent imports (see C39)",
-		Rules:       []string{"CACHE-KEY", "INSTALL-PAIR", "RELATIVE-BASE", "KEY-IS-PATH: a module read from a file is looked up and installed under the path it is read from"},
+		Rules:       []string{"CACHE-KEY", "INSTALL-PAIR", "RELATIVE-BASE", "KEY-IS-PATH: a module read from a file is looked up and installed under the path it is read from", "OP-READONLY: a compiled form (the use form included) keeps no state between executions: its exec method writes no field of the op, not even through sync/atomic, so every execution asks the module table"},
 		Patterns:    []string{"./pkg/eval"},
-		Run:         runC22,
-		MinCounts:   map[string]int{"CACHE-KEY": 2, "INSTALL-PAIR": 3, "RELATIVE-BASE": 1, "KEY-IS-PATH": 1},
+		Run:         func(p *core.Program, r *core.Report) { runC22(p, r); runOpReadonly(p, r, "OP-READONLY") },
+		MinCounts:   map[string]int{"CACHE-KEY": 2, "INSTALL-PAIR": 3, "RELATIVE-BASE": 1, "KEY-IS-PATH": 1, "OP-READONLY": 20},
 		Trusted:     trustedBase,
 		Controls: []core.Control{
 			{Name: "failed-module-stays-installed", Rule: "INSTALL-PAIR", File: "pkg/eval/builtin_special.go", Old: "\t\tfm.Evaler.deleteModule(key)\n\t\treturn nil, err", New: "\t\treturn nil, err", Fire: true, Quick: true},
@@ -34,10 +34,10 @@ func init() {
 		ID: "C16",
 		Explanation: "Decides structural necessary conditions of C16: (GATE) in every function that compiles and then runs code (Evaler.Eval, Frame.PrepareEval) the namespace preparation, the store to the interpreter's global namespace and the execution are dominated by the no-error edges of both parse.Parse and compile, so code with a static error never starts; (COMPILE-PURE) compile works on a clone of the static namespace it is given and touches its argument only to clone it, so a failed compilation leaves the namespace as it was; (CHECK-AGREE) every caller of compile (evaluation and the static check alike) passes the static view of the interpreter's builtin namespace and of the namespace the code would run in, the static check compiles the tree that parse.Parse returned, and what it returns is a constant, a parameter or derived from the compilation it has just done (not an answer remembered from an earlier state of the namespaces). That the two report the same set of errors for every program, and that compilation itself has no output side effects other than deprecation warnings, is not decided.",
 		NotCovered:  "equality of the error sets for every program; side effects of deprecation warnings",
-		Rules:       []string{"GATE", "COMPILE-PURE", "CHECK-AGREE"},
+		Rules:       []string{"GATE", "COMPILE-PURE", "CHECK-AGREE", "NO-GLOBAL-CAPTURE: nothing the compiler reaches stores the address of a package-level variable (state written while compiling must not outlive the compilation)"},
 		Patterns:    []string{"./pkg/eval"},
-		Run:         func(p *core.Program, r *core.Report) { runC16(p, r); runCheckModeInert(p, r) },
-		MinCounts:   map[string]int{"GATE": 4, "COMPILE-PURE": 1, "CHECK-AGREE": 3},
+		Run:         func(p *core.Program, r *core.Report) { runC16(p, r); runCheckModeInert(p, r); runNoGlobalCapture(p, r) },
+		MinCounts:   map[string]int{"GATE": 4, "COMPILE-PURE": 1, "CHECK-AGREE": 3, "NO-GLOBAL-CAPTURE": 1},
 		Trusted:     trustedBase,
 		Controls: []core.Control{
 			{Name: "global-stored-before-compile-error-test", Rule: "GATE", File: "pkg/eval/eval.go", Old: "\top, _, err := compile(b.static(), cfg.Global.static(), nil, tree, errFile)\n\tif err != nil {", New: "\top, _, err := compile(b.static(), cfg.Global.static(), nil, tree, errFile)\n\tif defaultGlobal && op.template != nil {\n\t\tev.global = &Ns{ev.global.slots, op.template.infos}\n\t}\n\tif err != nil {", Fire: true, Quick: true},
